@@ -31,8 +31,11 @@ INTERESTING_DAYS = [day_us(2019, 12, 31), day_us(2020, 1, 1), day_us(2020, 2, 29
 TIMES = [0, 1800_000_000, 12 * 3600_000_000, 23 * 3600_000_000, DAY - 1, 1, 3600_000_000]
 
 
-def gen_times(rng, n, mixed):
-    """n non-decreasing instants; ~30% equal to the previous one"""
+SUBSEC = [500_000, 800_000, 123_456, 999_999, 250_000, 1]
+
+
+def gen_times(rng, n, mixed, subsec_pct=0):
+    """n non-decreasing instants; ~30% equal to the previous one; subsec_pct % of the others get a sub-second part"""
     out = []
     style = rng.below(4)
     t = rng.choice(INTERESTING_DAYS) - rng.range(0, 400) * DAY if style else day_us(2017 + rng.below(4), 1 + rng.below(12), 1 + rng.below(28))
@@ -50,6 +53,8 @@ def gen_times(rng, n, mixed):
             t += 365 * DAY + rng.choice([-1, 0, 1, -1_000_000, 1_000_000, -DAY, DAY])
         else:
             t += rng.range(1, 200) * DAY + rng.choice(TIMES)
+        if subsec_pct and not (out and r < 30) and rng.chance(subsec_pct):
+            t += rng.choice(SUBSEC) if rng.chance(60) else 1 + rng.below(999_999)
         if out and t < out[-1]:
             t = out[-1]
         out.append(t)
@@ -65,15 +70,18 @@ def gen_sched(rng, country="us"):
     return [[y, rng.choice(METHS)] for y in years]
 
 
-def gen_history(rng, n_max=14, overdraw_pct=0, method=None, accounts=None, earn_pct=25, optional_pct=20, mixed_pct=25):
-    """A mostly-valid single-asset history (account-aware), as a case dict."""
+def gen_history(rng, n_max=14, overdraw_pct=0, method=None, accounts=None, earn_pct=25, optional_pct=20, mixed_pct=25,
+                in_fee_pct=6, subsec_pct=20):
+    """A mostly-valid single-asset history (account-aware), as a case dict.  in_fee_pct: share of the acquisitions of ANY
+    type (earn types included) that pay a fee in crypto (the spreadsheet parser splits such a row into the acquisition and an
+    artificial fee-only disposal); subsec_pct: share of the instants with a sub-second part."""
     ne, nh = accounts or (rng.range(1, 3), rng.range(1, 3))
     exchanges = [f"E{i}" for i in range(ne)]
     holders = [f"H{i}" for i in range(nh)]
     n = rng.range(1, n_max)
     mixed = rng.chance(mixed_pct)
     base_off = rng.choice(OFFSETS) if rng.chance(50) else 0
-    times = gen_times(rng, n, mixed)
+    times = gen_times(rng, n, mixed, subsec_pct)
     bal = {}
     lots_amt = []
     ins, outs, intras = [], [], []
@@ -100,8 +108,11 @@ def gen_history(rng, n_max=14, overdraw_pct=0, method=None, accounts=None, earn_
                     row["crypto_fee"] = rng.choice([1, 1000, U // 100])
                 if rng.chance(40):
                     row["fiat_in_with_fee"] = max(1, exact // U + rng.choice([0, 7 * U, 99]))
+            if in_fee_pct and "crypto_fee" not in row and "fiat_fee" not in row and rng.chance(in_fee_pct):
+                row["crypto_fee"] = max(1, min(rng.choice([1, 1000, U // 100, amt // 100 + 1]), amt // 2))
             ins.append(row)
-            bal[acct] = bal.get(acct, 0) + amt
+            # through the spreadsheet parser the fee leaves the account again (artificial fee-only disposal): keep it funded
+            bal[acct] = bal.get(acct, 0) + max(0, amt - row.get("crypto_fee", 0))
             lots_amt.append(amt)
         elif r < 80:
             acct = rng.choice(funded)
@@ -187,6 +198,51 @@ def gen_history(rng, n_max=14, overdraw_pct=0, method=None, accounts=None, earn_
             "ins": ins, "outs": outs, "intras": intras}
 
 
+
+def gen_threshold(rng):
+    """targeted history for the end-to-end stream: a lot acquired WITH A CRYPTO FEE at an instant with a sub-second part,
+    disposed of 365 days later give or take less than that sub-second part (so the long / short flag depends on the lot keeping
+    its exact instant through the parser's split), optionally after an older fee-less lot (a disposal spanning both).
+    All numbers are exact at 11 decimals as doubles."""
+    off = rng.choice(OFFSETS) if rng.chance(40) else 0
+    t0 = day_us(2017 + rng.below(4), 1 + rng.below(12), 1 + rng.below(28)) + rng.below(86400) * 1_000_000
+    f = rng.choice(SUBSEC[:5]) if rng.chance(50) else 2 + rng.below(999_998)
+    amt = rng.choice([U, 2 * U, 5 * 10 ** 10, 123456789])
+    fee = min(rng.choice([1000, U // 100, amt // 100]), amt // 10)
+    lot = {"ts": [t0 + f, off], "exch": 0, "holder": 0, "type": rng.choice(EARN) if rng.chance(30) else "BUY",
+           "spot": rng.choice([U, 10 * U, 20 * U, 1234567 * 10 ** 6]), "crypto_in": amt, "crypto_fee": fee}
+    if rng.chance(30):
+        lot["fiat_in_with_fee"] = amt * lot["spot"] // U + rng.choice([7 * U, 99, 12345])
+    if rng.chance(20):
+        lot["fiat_in_no_fee"] = max(1, amt * lot["spot"] // U + rng.choice([0, 1, 12345]))
+    ins, avail = [lot], amt - fee
+    if rng.chance(50):
+        older = rng.choice([10 ** 10, U, 3 * U])
+        ins.insert(0, {"ts": [t0 - rng.range(1, 40) * DAY, off], "exch": 0, "holder": 0, "type": "BUY", "spot": rng.choice([U, 50 * U]),
+                       "crypto_in": older})
+        avail += older
+    delta = -rng.range(1, f - 1) if rng.chance(60) else rng.choice([0, 1, -f, -f - 1, -1_000_000, 1_000_000, 500_000])
+    total = avail if rng.chance(50) else max(2, avail // rng.choice([2, 3]))
+    ofee = rng.choice([0, 0, 1000])
+    outs = [{"ts": [t0 + f + 365 * DAY + delta, rng.choice(OFFSETS) if rng.chance(30) else off], "exch": 0, "holder": 0,
+             "type": rng.choice(["SELL", "SELL", "GIFT", "DONATE"]), "spot": rng.choice([U, 30 * U, 987654321]),
+             "crypto_out_no_fee": total - ofee, "crypto_fee": ofee}]
+    if rng.chance(30) and total < avail:
+        outs.append({"ts": [outs[0]["ts"][0] + rng.choice([1, 1_000_000, DAY]), off], "exch": 0, "holder": 0, "type": "SELL", "spot": 40 * U,
+                     "crypto_out_no_fee": avail - total, "crypto_fee": 0})
+    r = 3
+    for row in ins:
+        row["row"] = r
+        r += 1
+    r += 3
+    for row in outs:
+        row["row"] = r
+        r += 1
+    return {"asset": "B1", "exchanges": ["E0"], "holders": ["H0"], "country": "us", "env": None,
+            "sched": [[1970, rng.choice(METHS)]], "from": None, "to": None, "allow_neg": False,
+            "ins": ins, "outs": outs, "intras": []}
+
+
 # ----------------------------------------------------------------------------- encoding for the model
 def _opt(v):
     return [0, 0] if v is None else [1, v]
@@ -241,11 +297,8 @@ def build_impl(case, from_day=None, to_day=None, allow_neg=True, methods=None):
     """methods: optional dict name -> AccountingMethod instance to reuse (rp2_main builds the method objects once and
     shares them between all assets of a run)"""
     from harness import impl
-    from prezzemolo.avl_tree import AVLTree
-    from rp2.accounting_engine import AccountingEngine
     from rp2.input_data import InputData
     from rp2.transaction_set import TransactionSet
-    import importlib
     country = impl.country_obj(case.get("country", "us"), case.get("env"))
     cfg = impl.make_config(country, [case["asset"]], case["exchanges"], case["holders"], from_day, to_day, allow_neg)
     a, ex, ho = case["asset"], case["exchanges"], case["holders"]
@@ -259,15 +312,22 @@ def build_impl(case, from_day=None, to_day=None, allow_neg=True, methods=None):
     for r in case["intras"]:
         intra_set.add_entry(impl.mk_intra(cfg, a, ex, ho, r))
     input_data = InputData(a, in_set, out_set, intra_set, cfg.from_date, cfg.to_date)
+    return cfg, make_engine(case["sched"], methods), input_data
+
+
+def make_engine(sched, methods=None):
+    from prezzemolo.avl_tree import AVLTree
+    from rp2.accounting_engine import AccountingEngine
+    import importlib
     tree = AVLTree()
-    for y, m in case["sched"]:
+    for y, m in sched:
         mod = importlib.import_module(f"rp2.plugin.accounting_method.{m}")
         if methods is None:
             inst = mod.AccountingMethod()
         else:
             inst = methods.setdefault(m, mod.AccountingMethod())
         tree.insert_node(y, inst)
-    return cfg, AccountingEngine(years_2_methods=tree), input_data
+    return AccountingEngine(years_2_methods=tree)
 
 
 def dump(computed, full=True):
@@ -309,8 +369,11 @@ def dump(computed, full=True):
 
 
 def impl_compute(case, from_day=None, to_day=None, allow_neg=True, full=True, methods=None):
-    """-> {'ok': dump} or {'err': kind, 'msg': text}"""
+    """-> {'ok': dump} or {'err': kind, 'msg': text}.  A case marked "via": "ods" is run end to end from real files
+    (impl_compute_ods), also when it comes back as a replay."""
     from harness import impl
+    if case.get("via") == "ods":
+        return impl_compute_ods(case, from_day, to_day, allow_neg, full, methods)
     try:
         from rp2.tax_engine import compute_tax
         cfg, engine, input_data = build_impl(case, from_day, to_day, allow_neg, methods)
@@ -318,6 +381,216 @@ def impl_compute(case, from_day=None, to_day=None, allow_neg=True, full=True, me
         return {"ok": dump(computed, full)}
     except Exception as exc:  # noqa: BLE001
         return {"err": impl.err_kind(exc), "msg": str(exc)[:300]}
+
+
+# ----------------------------------------------------------------------------- end-to-end ("ods") path
+# The real program builds its InputData with ods_parser.parse_ods, which does more than call the constructors: timestamps come
+# from strings, numbers from the cells' doubles through '%.11f', and an acquisition with a crypto fee is SPLIT into a fee-free
+# acquisition (fiat fields passed explicitly) plus an artificial fee-only FEE disposal with a negative id at the same instant.
+# An "ods case" is  split_case(source) + {"via": "ods", "source": source}:
+#   source = {"case": the generating case as it stands on the sheet, "lay": column layout, "rseed": seed of the sheet's junk/gaps}
+#   the rows of the ods case itself = the EFFECTIVE case the oracles judge: the documented semantics of the split applied to
+#   the source rows, computed here from the source alone (neither rp2 nor the Coq model is consulted).
+TKEY = (("ins", "in"), ("outs", "out"), ("intras", "intra"))
+
+
+def ods_exact(case):
+    """every number of the case survives the spreadsheet: the double nearest to v * 1e-11, rounded half-even to 11
+    decimals, is v again (so the float round trip cannot blur what the oracles compute from the case)"""
+    from harness import l1
+    for key, t in TKEY:
+        for r in case[key]:
+            for f in l1.FIELDS[t]:
+                if f in l1.NUMERIC:
+                    v = r.get(l1.dkey(f))
+                    if v is not None and l1.num11_of_float(l1.fnum(v)) != v:
+                        return False
+    return True
+
+
+def has_in_crypto_fee(case):
+    return any(r.get("crypto_fee") for r in case["ins"])
+
+
+def has_subsecond(case):
+    return any(r["ts"][0] % 1_000_000 for k, _ in TKEY for r in case[k])
+
+
+def ods_eligible(case):
+    """exact as doubles, and no acquisition with a crypto fee whose own fiat value is below the 13-decimal resolution (the
+    parser rejects those: known finding F15, judged by C11)"""
+    if not case["ins"] or not ods_exact(case):
+        return False
+    for r in case["ins"]:
+        if r.get("crypto_fee") and r.get("fiat_in_no_fee") is None and round_half_even_13(r["crypto_in"] * r["spot"]) == 0:
+            return False
+    return True
+
+
+def ods_source(case, rng):
+    """the case as it is written to the sheet under a random column layout: optional values whose column is not mapped are
+    dropped, timestamps / types get spelling variants, unique ids and notes are filled in"""
+    from harness import l1
+    for _ in range(400):
+        lay = l1.gen_layout(rng)
+        if "crypto_fee" in lay["in"] or not has_in_crypto_fee(case):
+            break
+    sheet = l1.decorate(case, lay, rng)
+    for key, t in TKEY:
+        for d, r in zip(sheet[key], case[key]):
+            if r.get("uid") is not None and "unique_id" in lay[t]:
+                d["unique_id"] = r["uid"]
+            d.pop("uid", None)
+    src = {k: sheet[k] for k in ("asset", "exchanges", "holders", "ins", "outs", "intras")}
+    return {"case": src, "lay": lay, "rseed": rng.below(2 ** 31)}
+
+
+def ods_render(src):
+    """-> (rows of cell values, rowmap, struct) of the sheet; deterministic in the source"""
+    from harness import l1
+    return l1.render(src["case"], src["lay"], core.Rng(src["rseed"], 51))
+
+
+def _q(x):
+    """exact rational in 1e-11 units, JSON-able: int when integral, else 'n/d' (Fraction() reads both back)"""
+    from fractions import Fraction
+    x = Fraction(x)
+    return x.numerator if x.denominator == 1 else f"{x.numerator}/{x.denominator}"
+
+
+def split_case(src):
+    """The transactions the program must compute on, per the documentation of the input sheet, from the source alone: one
+    transaction per sheet row (row id = sheet row number), and every acquisition with a non-zero crypto fee replaced by
+    (a) the same acquisition without crypto fee, fiat fee = fee x spot price, fiat_in_no_fee = the supplied value or
+    crypto_in x spot price, fiat_in_with_fee = the supplied value or the sum of the two (exact rationals), and (b) an artificial
+    fee-only FEE disposal of the fee at the same instant on the same account, priced at the acquisition's spot price, with
+    the next artificial id -1, -2, ... in the order of the IN table; artificial disposals come after the sheet's own."""
+    from fractions import Fraction
+    case = src["case"]
+    _, rowmap, _ = ods_render(src)
+
+    def base(t, k, r):
+        d = {f: v for f, v in r.items() if f not in ("ts_str", "type_str", "unique_id", "notes")}
+        d["ts"] = list(r["ts"])
+        d["row"] = rowmap[f"{t}:{k}"]
+        if r.get("unique_id") is not None:
+            d["uid"] = str(r["unique_id"])
+        return d
+    ins, outs, art = [], [], []
+    for k, r in enumerate(case["ins"]):
+        d = base("in", k, r)
+        fee = d.pop("crypto_fee", None)
+        if fee:
+            x = Fraction(fee * d["spot"], U)
+            y = Fraction(d["fiat_in_no_fee"]) if d.get("fiat_in_no_fee") is not None else Fraction(d["crypto_in"] * d["spot"], U)
+            z = Fraction(d["fiat_in_with_fee"]) if d.get("fiat_in_with_fee") is not None else x + y
+            d["fiat_fee"], d["fiat_in_no_fee"], d["fiat_in_with_fee"] = _q(x), _q(y), _q(z)
+            d["split_fee"] = fee
+            a = {"row": -(len(art) + 1), "ts": list(r["ts"]), "exch": r["exch"], "holder": r["holder"], "type": "FEE", "spot": d["spot"],
+                 "crypto_out_no_fee": 0, "crypto_fee": fee, "artificial": True}
+            if "uid" in d:
+                a["uid"] = d["uid"]
+            art.append(a)
+        ins.append(d)
+    outs = [base("out", k, r) for k, r in enumerate(case["outs"])]
+    intras = [base("intra", k, r) for k, r in enumerate(case["intras"])]
+    return {"asset": case["asset"], "exchanges": list(case["exchanges"]), "holders": list(case["holders"]),
+            "ins": ins, "outs": outs + art, "intras": intras}
+
+
+def ods_case(case, rng):
+    """the end-to-end twin of a generated case (None when what stands on the sheet is not eligible any more, e.g. a dropped
+    fiat_in_no_fee leaves a crypto-fee acquisition worth less than the resolution)"""
+    src = ods_source(case, rng)
+    if not ods_eligible(src["case"]):
+        return None
+    eff = split_case(src)
+    for k in ("country", "env", "sched", "from", "to", "allow_neg"):
+        eff[k] = case.get(k)
+    eff["via"] = "ods"
+    eff["source"] = src
+    return eff
+
+
+def ods_stats(cases):
+    """size of the end-to-end stream among the given cases (for the evidence)"""
+    o = [c for c in cases if c.get("via") == "ods"]
+    return {"cases_run_from_real_ini_ods_files_through_parse_ods": len(o),
+            "with_crypto_fee_split": sum(1 for c in o if any(r.get("split_fee") for r in c["ins"])),
+            "earn_typed_acquisition_with_crypto_fee": sum(1 for c in o if any(r.get("split_fee") and r["type"] in EARN for r in c["ins"])),
+            "with_sub_second_timestamp": sum(1 for c in o if has_subsecond(c)),
+            "crypto_fee_lot_with_sub_second_timestamp": sum(1 for c in o if any(r.get("split_fee") and r["ts"][0] % 1_000_000 for r in c["ins"])),
+            "crypto_fee_lot_with_supplied_fiat_in_with_fee": sum(1 for c in o for s in [c["source"]["case"]["ins"]]
+                                                                 if any(r.get("crypto_fee") and r.get("fiat_in_with_fee") is not None for r in s)),
+            "of_all_cases": len(cases)}
+
+
+def ods_line_args(case, cells, from_day=None, to_day=None, allow=True):
+    """arguments of model command 31 after the mode: [period; from; to; allow; sched; the input of command 41]"""
+    from harness import l1, l4
+    period = l4.PERIOD.get(case.get("country") or "us", case.get("env") or 0)
+    a = [period, 0 if from_day is None else from_day, l4.MAXDAY if to_day is None else to_day, 1 if allow else 0, len(case["sched"])]
+    for y, m in case["sched"]:
+        a += [y, MCODE[m]]
+    return a + l1.encode_parse_full(case["source"]["lay"], [case["asset"]], case["exchanges"], case["holders"], case["asset"], 0, cells)
+
+
+def ods_files(case, d):
+    """writes the configuration file and the spreadsheet of an ods case into directory d -> (ini path, ods path, the cells
+    read back from the sheet)"""
+    import os
+    from harness import l1
+    src = case["source"]
+    rows, _, _ = ods_render(src)
+    ini, ods = os.path.join(d, "c.ini"), os.path.join(d, "s.ods")
+    with open(ini, "w", encoding="utf-8") as f:
+        f.write(l1.ini_text(src["lay"], [case["asset"]], case["exchanges"], case["holders"]))
+    l1.write_ods(ods, {case["asset"]: rows})
+    return ini, ods, l1.read_cells(ods, case["asset"])
+
+
+def ods_model_args(case, from_day=None, to_day=None, allow=True):
+    """arguments of model command 31 for an ods case, without running the implementation"""
+    import shutil
+    import tempfile
+    d = tempfile.mkdtemp(prefix="odsm", dir=core.tmp_root())
+    try:
+        return ods_line_args(case, ods_files(case, d)[2], from_day, to_day, allow)
+    finally:
+        shutil.rmtree(d, ignore_errors=True)
+
+
+def impl_compute_ods(case, from_day=None, to_day=None, allow_neg=True, full=True, methods=None):
+    """writes the source of an ods case as a real .ini + .ods, lets rp2 parse it (Configuration + open_ods + parse_ods, as
+    rp2_main does) and runs compute_tax.  -> {'ok': dump | 'err': kind, 'msg'} plus 'parsed' (the transactions parse_ods
+    produced: post-split rows, in set order) and 'line' (arguments of model command 31: the cells read back from the file)"""
+    import shutil
+    import tempfile
+    from harness import impl, l1
+    a, ex, ho = case["asset"], case["exchanges"], case["holders"]
+    d = tempfile.mkdtemp(prefix="ods", dir=core.tmp_root())
+    out = {}
+    try:
+        ini, ods, cells = ods_files(case, d)
+        out["line"] = ods_line_args(case, cells, from_day, to_day, allow_neg)
+        try:
+            from rp2.configuration import Configuration, MIN_DATE, MAX_DATE
+            from rp2.ods_parser import open_ods, parse_ods
+            from rp2.tax_engine import compute_tax
+            cfg = Configuration(ini, impl.country_obj(case.get("country") or "us", case.get("env")),
+                                from_date=MIN_DATE if from_day is None else impl.date_of_day(from_day),
+                                to_date=MAX_DATE if to_day is None else impl.date_of_day(to_day),
+                                allow_negative_balances=allow_neg)
+            input_data = parse_ods(cfg, a, open_ods(cfg, ods))
+            parsed = l1.dump_input_data(input_data, ex, ho)
+            out["parsed"] = {k: parsed[k] for k in ("ins", "outs", "intras")}
+            out["ok"] = dump(compute_tax(cfg, make_engine(case["sched"], methods), input_data), full)
+        except Exception as exc:  # noqa: BLE001
+            out["err"] = impl.err_kind(exc)
+            out["msg"] = str(exc)[:300]
+    finally:
+        shutil.rmtree(d, ignore_errors=True)
+    return out
 
 
 # ----------------------------------------------------------------------------- independent oracles (property text)
